@@ -53,6 +53,8 @@ def random_bar(rng, values, key=None, meter=None):
         v = rng.choice(fits)
         r = rng.random()
         notes = None if r < 0.2 else MM.random_notes(rng, size=1 if r < 0.55 else rng.randint(2, 5), lo=0, hi=12 * 8 + 11, acc=2)
+        if r < 0.05:
+            notes = []              # a rest given as an empty container
         entries.append({"v": [v.base, v.dots, v.r1, v.r2], "notes": notes})
         total += v.length
     return {"key": key, "meter": list(meter), "entries": entries}
@@ -66,7 +68,7 @@ def expected_entries(bspec):
     out = []
     for e in bspec["entries"]:
         base, dots, r1, r2 = e["v"]
-        ps = None if e["notes"] is None else [(n[0], n[1]) for n in e["notes"]]
+        ps = None if not e["notes"] else [(n[0], n[1]) for n in e["notes"]]
         out.append((ps, Fraction(base), dots, (r1, r2)))
     return out
 
@@ -147,7 +149,7 @@ def check_xml(ctx, doc, cspec, w):
             for e in bs["entries"]:
                 v = MM.val_of(e["v"])
                 q = v.length * 4
-                if e["notes"] is None:
+                if not e["notes"]:
                     exp.append({"pitch": None, "chord": False, "dots": v.dots, "quarters": q})
                 else:
                     for i, n in enumerate(e["notes"]):
